@@ -44,7 +44,7 @@ TStep ==
                         e.post.x[i] = w.x /\ e.post.y[i] = w.y /\ e.post.alive[i] = w.alive /\ e.post.active[i] = w.active
           hcell(i) == Depth(G, Round(e.pre.x[i]), Round(e.pre.y[i]))          \* the cell occupied when the step began
           dz(i) == DispZ(e, i, xw(i))
-      IN Mark(All(<<Check("setup.valid", shape /\ ExactDiv(e, n)),
+      IN /\ Mark(All(<<Check("setup.valid", shape /\ ExactDiv(e, n)),
                     Check("lattice", ~e.off),
                     Check("diff.draw_count", (S.s16 > 0 \/ S.sz16 > 0) => Len(e.draws) = nh + nv),
                     Check("diff.deterministic_when_off", (S.s16 = 0 /\ S.sz16 = 0) => Len(e.draws) = 0),
@@ -55,6 +55,13 @@ TStep ==
                              (Abs(dz(i)) < hcell(i) /\ e.pre.z[i] >= 0 /\ e.pre.z[i] <= hcell(i)) => (e.post.z[i] >= 0 /\ e.post.z[i] <= hcell(i))),
                     Check("vert.unchanged_when_off", (shape /\ ~VertOn) => \A i \in 1..n : e.post.z[i] = e.pre.z[i]),
                     Check("track.alive_in_water", shape => \A i \in 1..n : Safe(G, P(e.post, i)))>>))
+      \* vacuity control of the outcome clauses: how many particles left the grid / were held back at the coast in this step
+         /\ IF shape /\ enough
+            THEN PrintT(<<"COUNT", "tkilled", Cardinality({ i \in 1..n : e.pre.alive[i] /\ ~e.post.alive[i] })>>) /\
+                 PrintT(<<"COUNT", "tcancelled", Cardinality({ i \in 1..n : e.pre.alive[i] /\ e.pre.active[i] /\ e.post.alive[i]
+                                                  /\ e.post.x[i] = e.pre.x[i] /\ e.post.y[i] = e.pre.y[i]
+                                                  /\ (DispX(e, i, xu(1, i)) # 0 \/ DispY(e, i, xv(1, i)) # 0) })>>)
+            ELSE TRUE
    /\ UNCHANGED <<tid, S>>
 Crash == Is("crash") /\ Mark(Check("run.crashed", FALSE)) /\ UNCHANGED <<tid, S>>
 Next == Setup \/ Eof \/ TStep \/ Crash
